@@ -241,23 +241,53 @@ def _iterated_elements(b, c, projs):
         return None
     coll = _single_source(b, c.args[0]['place']['l'],
                           ('IntoIterator::into_iter', 'slice::iter', 'Vec::iter', 'VecDeque::iter', 'Deref::deref'))
-    ds = [d for d in b.defs.get(coll, []) if d[1] == 'call' or not d[2]['lhs']['p']]
-    if len(ds) != 1 or ds[0][1] != 'call':
+    cy = collection_yields(b, coll)
+    if cy is None:
         return None
-    col = b.call_at(ds[0][0])
-    if not col.is_('Iterator::collect', 'FromIterator::from_iter') or not col.args or \
-            col.args[0].get('k') not in ('copy', 'move'):
-        return None
-    src = col.args[0]['place']['l']
-    els = []
-    for y in b.calls_to('desugar::yield'):
-        r = y.args[0]
-        if r.get('k') not in ('copy', 'move'):
-            continue
-        rs = [d for d in b.defs.get(r['place']['l'], []) if d[1] != 'call' and d[2]['rv']['k'] == 'ref']
-        if any(d[2]['rv']['place']['l'] == src for d in rs) and y.args[1].get('k') in ('copy', 'move'):
-            els.append(y.args[1])
+    els = [y.args[1] for y in cy[1] if y.args[1].get('k') in ('copy', 'move')]
     return els or None
+
+
+EMPTY_CTORS = ('Vec::new', 'Vec::with_capacity', 'VecDeque::new', 'VecDeque::with_capacity', 'Default::default')
+
+
+def collection_yields(b, coll):
+    """local `coll` holds a collection built by one `collect()` of a normalised chain (A12) - other definitions
+    may only be empty constructors (`return Vec::new()` on an early exit): (collect call, [yield calls]), else
+    None"""
+    ds = [d for d in b.defs.get(coll, []) if d[1] == 'call' or not d[2]['lhs']['p']]
+    cols = []
+    for d in ds:
+        if d[1] != 'call':
+            # handed through a temporary / the return place of a spliced helper
+            rv = d[2]['rv']
+            if rv['k'] == 'use' and rv['op'].get('k') in ('copy', 'move') and not rv['op']['place']['p']:
+                sub = collection_yields(b, rv['op']['place']['l'])
+                if sub is None:
+                    return None
+                cols.append(sub)
+                continue
+            return None
+        dc = b.call_at(d[0])
+        if dc.is_(*EMPTY_CTORS):
+            continue
+        if not dc.is_('Iterator::collect', 'FromIterator::from_iter') or not dc.args or \
+                dc.args[0].get('k') not in ('copy', 'move'):
+            return None
+        src = dc.args[0]['place']['l']
+        ys = []
+        for y in b.calls_to('desugar::yield'):
+            r = y.args[0]
+            if r.get('k') not in ('copy', 'move'):
+                continue
+            rs = [d_ for d_ in b.defs.get(r['place']['l'], []) if d_[1] != 'call' and d_[2]['rv']['k'] == 'ref']
+            if any(d_[2]['rv']['place']['l'] == src for d_ in rs):
+                ys.append(y)
+        cols.append((dc, ys))
+    cols = [c_ for c_ in cols if c_ is not None]
+    if len(cols) != 1 or not cols[0][1]:
+        return None
+    return cols[0]
 
 
 def origin_calls(b, operand):
